@@ -309,6 +309,41 @@ theorem ids_stable_step (multi : Bool) (ops : List (Op K)) (op : Op K) (r : St K
     | front => exact c6
     | back => exact c6
 
+theorem ids_toSt (f : K → Int) (s : St K) : Avl.ids (toSt f s).t = s.t.inorder.map (fun e => e.1) := by
+  simp [Avl.ids, toSt, toI_inorder, toE]
+
+/-- **Which address an insert takes, for every key type** (see `Avl.insert_takes_free_head`). -/
+theorem insert_takes_free_head (multi : Bool) (ops : List (Op K)) (op : Op K) (r : St K × Out)
+    (h : step (run multi ops) op = some r) (hc : r.1.size = (run multi ops).size + 1) :
+    ((∃ k v, op = .insert k v) ∨ (∃ p k v, op = .insertAt p k v)) ∧
+    (∃ q, r.2.ret = .it q ∧ (r.1.t.inorder.map (fun e => e.1))[q]? = some (run multi ops).alloc.1) ∧
+    (run multi ops).alloc.1 ∉ (run multi ops).t.inorder.map (fun e => e.1) ∧
+    r.1.free = (run multi ops).alloc.2.free ∧ r.1.blocks = (run multi ops).alloc.2.blocks := by
+  obtain ⟨hL, h1, h2⟩ := transfer multi ops (keysOf [op])
+  generalize hLd : keysOf [op] ++ keysOf ops = L at hL h1 h2
+  generalize hfd : rank L = f at hL h1 h2
+  generalize hsd : run multi ops = s at h hc h1 h2 ⊢
+  have hopk : ∀ k, opKey op = some k → k ∈ L := by
+    intro k hk
+    rw [← hLd]
+    apply List.mem_append_left
+    unfold keysOf; rw [List.mem_filterMap]; exact ⟨op, by simp, hk⟩
+  have hk : ∀ k, opKey op = some k → All (Pres f k) s.t :=
+    fun k hk => all_imp (fun x hx => hL k (hopk k hk) x hx) _ h2
+  have hst := step_toSt (f := f) s op hk
+  rw [h] at hst
+  simp only [toR, Option.map_some] at hst
+  have hreach : Avl.Reach multi (toSt f s) := by rw [h1]; exact Avl.reach_run _ _
+  obtain ⟨a, ⟨q, b1, b2⟩, c, d, e⟩ := Avl.insert_takes_free_head hreach (toOp f op) _ hst hc
+  rw [alloc_toSt] at b2 c d e
+  simp only [ids_toSt] at b2 c
+  refine ⟨?_, ⟨q, b1, b2⟩, c, d, e⟩
+  rcases a with ⟨k', v, a⟩ | ⟨p, k', v, a⟩
+  · left; cases op <;> simp [toOp] at a
+    exact ⟨_, _, rfl⟩
+  · right; cases op <;> simp [toOp] at a
+    exact ⟨_, _, _, rfl⟩
+
 end G
 
 end Nstd.Avl
